@@ -86,8 +86,11 @@ def _canon_tree(tree: ast.AST) -> None:
     ever sees the difference:
 
       ``x = E`` directly followed by ``return x`` (x used nowhere else in the function)  ->  ``return E``
+      ``x = <bool expr>`` directly followed by ``if x:`` / ``if not x:`` (x used nowhere else)  ->  ``if <bool expr>:``
+      ``if not c: B else: A``  ->  ``if c: A else: B``   (elif chains are left alone)
 
-    (the inverse of the "name the result before returning it" edit).  In place."""
+    (the inverses of "name the result before returning it", "name the condition before testing
+    it" and "put the other branch first").  In place."""
     for fn in ast.walk(tree):
         if not isinstance(fn, (ast.FunctionDef, ast.AsyncFunctionDef)):
             continue
@@ -95,6 +98,21 @@ def _canon_tree(tree: ast.AST) -> None:
         for n in ast.walk(fn):
             if isinstance(n, ast.Name):
                 uses[n.id] = uses.get(n.id, 0) + 1
+        # names that occur only as `x = E; return x` pairs (possibly several pairs)
+        pair_uses: dict[str, int] = {}
+        for n in ast.walk(fn):
+            for fld in ("body", "orelse", "finalbody"):
+                blk = getattr(n, fld, None)
+                if isinstance(blk, list):
+                    for a, b in zip(blk, blk[1:]):
+                        if isinstance(a, ast.Assign) and len(a.targets) == 1 and isinstance(a.targets[0], ast.Name) and isinstance(b, ast.Return) and isinstance(b.value, ast.Name) and b.value.id == a.targets[0].id:
+                            pair_uses[b.value.id] = pair_uses.get(b.value.id, 0) + 2
+            if isinstance(n, ast.Try):
+                for h in n.handlers:
+                    for a, b in zip(h.body, h.body[1:]):
+                        if isinstance(a, ast.Assign) and len(a.targets) == 1 and isinstance(a.targets[0], ast.Name) and isinstance(b, ast.Return) and isinstance(b.value, ast.Name) and b.value.id == a.targets[0].id:
+                            pair_uses[b.value.id] = pair_uses.get(b.value.id, 0) + 2
+        only_pairs = {k for k, v in pair_uses.items() if uses.get(k) == v}
 
         def fix(block: list) -> None:
             i = 0
@@ -105,10 +123,26 @@ def _canon_tree(tree: ast.AST) -> None:
                     tgt, val = a.targets[0].id, a.value
                 elif isinstance(a, ast.AnnAssign) and isinstance(a.target, ast.Name) and a.value is not None:
                     tgt, val = a.target.id, a.value
-                if tgt is not None and isinstance(b, ast.Return) and isinstance(b.value, ast.Name) and b.value.id == tgt and uses.get(tgt) == 2:
+                if tgt is not None and isinstance(b, ast.Return) and isinstance(b.value, ast.Name) and b.value.id == tgt and (uses.get(tgt) == 2 or tgt in only_pairs):
                     block[i : i + 2] = [ast.copy_location(ast.Return(value=val), a)]
                     continue
+                # a flag named right before the one `if` that tests it
+                if tgt is not None and isinstance(b, ast.If) and uses.get(tgt) == 2 and isinstance(val, (ast.BoolOp, ast.UnaryOp, ast.Compare)):
+                    t = b.test
+                    if isinstance(t, ast.Name) and t.id == tgt:
+                        b.test = val
+                        del block[i]
+                        continue
+                    if isinstance(t, ast.UnaryOp) and isinstance(t.op, ast.Not) and isinstance(t.operand, ast.Name) and t.operand.id == tgt:
+                        t.operand = val
+                        del block[i]
+                        continue
                 i += 1
+            # `if not c: B else: A`  ->  `if c: A else: B`  (not for elif chains)
+            for st in block:
+                if isinstance(st, ast.If) and st.orelse and not (len(st.orelse) == 1 and isinstance(st.orelse[0], ast.If)) and isinstance(st.test, ast.UnaryOp) and isinstance(st.test.op, ast.Not):
+                    st.test = st.test.operand
+                    st.body, st.orelse = st.orelse, st.body
 
         for n in ast.walk(fn):
             for fld in ("body", "orelse", "finalbody"):
